@@ -11,7 +11,12 @@ process" is bound by two in-package executors (real BrokerChannel.Negotiate
 over a scripted RendezvousMethod; real SignalingServer.sendAnswer against an
 httptest server) whose captures are judged by the same oracle.
 
-Parts (--only): util, negotiate, sendanswer."""
+Parts (--only): util, negotiate, sendanswer, lifecycle.  lifecycle: the
+setting belongs to a proxy lifetime and proxy/lib keeps package state; TLC
+(spec/SdpStrip/SdpLife.tla) enumerates sequences of lifetimes [keep, url] which
+are run in ONE process each through the real Start()/Stop() against scripted
+brokers (harness/inpkg/proxy_lib/lifecycle_verif_test.go, helpers of the C16
+rig); every answer posted is judged against the setting of ITS lifetime."""
 import json
 import os
 import vlib
@@ -122,7 +127,16 @@ def run(chk, args):
     d = vlib.scratch("c08")
     if args.replay:
         return replay(chk, drv, args.replay)
-    only = set(args.only.split(",")) if args.only else {"util", "negotiate", "sendanswer"}
+    only = set(args.only.split(",")) if args.only else {"util", "negotiate", "sendanswer", "lifecycle"}
+    life_job = None
+    if "lifecycle" in only:
+        # the life-cycle processes wait on real timers (5 s poll ticker per lifetime): run them beside the rest
+        import concurrent.futures
+        life_ex = concurrent.futures.ThreadPoolExecutor(max_workers=1)
+        plans = _life_plans(chk)
+        if plans is None:
+            return
+        life_job = life_ex.submit(_life_run, chk, plans)
 
     # 1. design level: the filter as coded meets the contract
     for cfg in (["MC_probe_quick.cfg", "MC_full.cfg"] if q else ["MC_probe_quick.cfg", "MC_full.cfg", "MC_probe_thorough.cfg"]):
@@ -189,6 +203,10 @@ def run(chk, args):
         elif s["with_target_candidate"] < 1000:
             chk.fail("sendanswer: only %d of %d PeerConnections carried the requested candidate (%s)" % (s["with_target_candidate"], s["cases"], s.get("skip_example", "")))
 
+    if life_job is not None:
+        outs = life_job.result()
+        _life_judge(chk, drv, table, plans, outs)
+
     chk.cov["exhaustive"] = True
     chk.cov["traces_validated_against_impl"] = 0
     chk.cov["rule"] = ("a description is non-trivial when it has a candidate that is not a plain host candidate the filter must keep "
@@ -200,6 +218,97 @@ def run(chk, args):
         "address spellings of a class are drawn from the forms net.ParseIP accepts with VERIF_SEED",
         "sendAnswer binding: candidates are put into a real PeerConnection with SettingEngine.SetNAT1To1IPs (IPv4, host and srflx only); other kinds reach sendAnswer's code path only through the shared util.StripLocalAddresses",
     ]
+
+
+def _life_plans(chk):
+    """Lifetime sequences from SdpLife.tla (model-checked first; the server-reusing Start must be refuted)."""
+    def t(cfg, **kw):
+        r = vlib.tlc(SPECDIR, "SdpLife", cfg, timeout=600, **kw)
+        chk.add_tlc(r)
+        return r
+    r = t("MC_life.cfg", keep_prints=False)
+    if r.error:
+        chk.fail("model check MC_life.cfg failed: %s" % r.error)
+        return None
+    r = t("MC_life_reuse.cfg", keep_prints=False)
+    if r.error != "invariant:EachLifetimeItsOwnSetting":
+        chk.fail("self-check: MC_life_reuse.cfg should violate EachLifetimeItsOwnSetting, TLC says %s" % r.error)
+        return None
+    g = t("Gen_life.cfg" if chk.tier == "quick" else "Gen_life_thorough.cfg", workers=1)
+    if g.error:
+        chk.fail("Gen_life failed: %s" % g.error)
+        return None
+    plans = [p for p in g.prints if isinstance(p, dict) and len(p.get("lives", [])) >= 2]
+    if len(plans) < 8:
+        chk.fail("only %d lifetime sequences" % len(plans))
+        return None
+    for i, p in enumerate(plans):
+        p["name"] = "c08-life-%d" % i
+    return plans
+
+
+def _life_run(chk, plans):
+    import proxyrig as pr
+    binary = pr.build()
+    return pr.run_plans(binary, "TestVerifC08Lifecycle", plans, parallel=16, timeout=240)
+
+
+def _life_context(plan, life):
+    if life <= 1:
+        return "first-lifetime"
+    cur, prev = plan["lives"][life - 1], plan["lives"][life - 2]
+    return "after-a-lifetime-with-keep=%s-on-%s-broker-url" % (str(prev["keep"]).lower(), "the-same" if prev["url"] == cur["url"] else "another")
+
+
+def _life_judge(chk, drv, table, plans, outs):
+    d = vlib.scratch("c08")
+    events, skipped, done = [], 0, 0
+    for i, out in enumerate(outs):
+        evs = out.events
+        if any(e.get("ev") == "skip" for e in evs):
+            skipped += 1
+            continue
+        if out.timed_out or not any(e.get("ev") == "end" for e in evs):
+            chk.fail("lifecycle %s: executor did not complete (rc=%s)\n%s" % (plans[i]["name"], out.rc, out.out[-1500:]))
+            continue
+        lives = [e for e in evs if e.get("ev") == "life"]
+        if len(lives) != len(plans[i]["lives"]) or any(not e.get("stopped") or e.get("answers", 0) < 1 for e in lives):
+            chk.fail("lifecycle %s: not every lifetime posted an answer and stopped: %s" % (plans[i]["name"], json.dumps(lives)))
+            continue
+        done += 1
+        for e in evs:
+            e["plan"] = i
+            if e.get("ev") == "answer":
+                e["context"] = _life_context(plans[i], e["life"])
+            events.append(e)
+    if skipped:
+        chk.cov.setdefault("skipped_clauses", []).append("life-cycle binding: no non-loopback interface (%d processes)" % skipped)
+    if not events:
+        return
+    capt, obs, judged = os.path.join(d, "life.events.ndjson"), os.path.join(d, "Observed.tla"), os.path.join(d, "life.out")
+    vlib.write_ndjson(capt, events)
+    r = vlib.run([drv, "observed", capt, obs], timeout=300)
+    if r.rc != 0 or not os.path.exists(obs):
+        raise vlib.Inconclusive("sdpdrv observed failed:\n%s" % r.out[-2000:])
+    # TLC classifies the addresses the real proxy produced
+    g = vlib.tlc(SPECDIR, "SdpStrip", "Gen_observed.cfg", workers=1, timeout=600, files={"Observed.tla": obs}, keep_prints=False)
+    chk.add_tlc(g)
+    if g.error:
+        raise vlib.Inconclusive("Gen_observed failed: %s" % g.error)
+    tab2 = os.path.join(d, "table+observed.ndjson")
+    with open(tab2, "w") as out, open(table) as base:
+        out.write(base.read())
+        for line in g.out.splitlines():
+            if line.startswith('"{') and line.endswith('"'):
+                out.write(json.loads(line) + "\n")
+    s = _drive(chk, drv, ["judgelife", tab2, capt, judged], judged, "lifecycle")
+    chk.note("proxy/lib life cycle: %d processes, %d lifetimes through the real Start()/Stop(), %d answers (%d in lifetimes that must strip)" % (
+        done, s["lifetimes"], s["cases"], s["nontrivial"]))
+    if s["candidates_not_in_table"]:
+        chk.fail("lifecycle: %d candidates could not be classified" % s["candidates_not_in_table"])
+    if s["answers_in_keeping_lifetimes_with_local_host_candidate"] == 0:
+        # this machine gives pion no local (private / unique-local) address: a surviving candidate could not be seen
+        chk.cov.setdefault("skipped_clauses", []).append("life-cycle binding: the proxy's PeerConnections gathered no local host candidate on this machine")
 
 
 def _negotiate(chk, drv, cases_path):
@@ -249,6 +358,11 @@ def replay(chk, drv, path):
         table, _ = _emit(chk, "Gen_table.cfg", "table")
         vlib.write_ndjson(fin, [{"typ": case["typ"], "addr": case["addr"]}])
         _sendanswer(chk, drv, table, fin)
+    elif mode == "lifecycle":
+        plans = _life_plans(chk)
+        if plans is not None:
+            table, _ = _emit(chk, "Gen_table.cfg", "table")
+            _life_judge(chk, drv, table, plans, _life_run(chk, plans))
     elif mode == "non-sdp":
         raw, _ = _emit(chk, "Gen_raw.cfg", "raw")
         for n in (2000, 60000):
